@@ -62,6 +62,7 @@ type mbxCfg struct {
 	metas     []int
 	histMetas []int
 	hubMeta   int // broker default meta TTL in seconds
+	only      []mbxOp // when set: the alphabet is adv + these + stop
 	shards    int
 	budget    int
 }
@@ -69,6 +70,10 @@ type mbxCfg struct {
 func (c *mbxCfg) letters() []mbxOp {
 	var out []mbxOp
 	out = append(out, mbxOp{kind: "adv"})
+	if len(c.only) > 0 {
+		out = append(out, c.only...)
+		return append(out, mbxOp{kind: "stop"})
+	}
 	for _, ch := range c.chans {
 		for _, s := range c.sizes {
 			for _, t := range c.ttls {
@@ -95,12 +100,17 @@ func mbxVariants(tier string) []vsched.Variant {
 			{name: "d5/2ch/size12/ttl12/meta0-3/hub2", depth: 5, chans: []string{"a", "b"}, sizes: []int{1, 2}, ttls: []int{1, 2}, metas: []int{0, 3}, histMetas: []int{0, 3}, hubMeta: 2, shards: 16, budget: 900},
 			{name: "d6/1ch/size12/ttl12/meta0-3/hub2", depth: 6, chans: []string{"a"}, sizes: []int{1, 2}, ttls: []int{1, 2}, metas: []int{0, 3}, histMetas: []int{0, 3}, hubMeta: 2, shards: 16, budget: 900},
 			{name: "d8/1ch/size23/ttl2/meta0/hub30d", depth: 8, chans: []string{"a"}, sizes: []int{2, 3}, ttls: []int{2}, metas: []int{0}, histMetas: []int{0}, hubMeta: 30 * 24 * 3600, shards: 8, budget: 900},
+			// metadata TTL shorter than the history TTL: the stream is discarded before its content expiry fires
+			{name: "d11/short-meta-then-long", depth: 11, chans: []string{"a"}, hubMeta: 1, only: []mbxOp{{kind: "pub", ch: "a", size: 2, ttl: 3, meta: 1}, {kind: "pub", ch: "a", size: 2, ttl: 1, meta: 30}}, shards: 16, budget: 900},
 		}
 	} else {
 		cfgs = []*mbxCfg{
 			{name: "d4/2ch/size12/ttl12/meta0-3/hub2", depth: 4, chans: []string{"a", "b"}, sizes: []int{1, 2}, ttls: []int{1, 2}, metas: []int{0, 3}, histMetas: []int{0, 3}, hubMeta: 2, shards: 12, budget: 150},
 			{name: "d5/1ch/size12/ttl12/meta0-3/hub2", depth: 5, chans: []string{"a"}, sizes: []int{1, 2}, ttls: []int{1, 2}, metas: []int{0, 3}, histMetas: []int{0, 3}, hubMeta: 2, shards: 8, budget: 150},
 			{name: "d6/1ch/size23/ttl2/meta0/hub30d", depth: 6, chans: []string{"a"}, sizes: []int{2, 3}, ttls: []int{2}, metas: []int{0}, histMetas: []int{0}, hubMeta: 30 * 24 * 3600, shards: 2, budget: 150},
+			// metadata TTL (1 s) shorter than the history TTL (3 s): the stream is discarded before its content
+			// expiry fires; a later publish with a long metadata TTL must still expire after its own TTL
+			{name: "d9/short-meta-then-long", depth: 9, chans: []string{"a"}, hubMeta: 1, only: []mbxOp{{kind: "pub", ch: "a", size: 2, ttl: 3, meta: 1}, {kind: "pub", ch: "a", size: 2, ttl: 1, meta: 30}}, shards: 8, budget: 150},
 		}
 	}
 	var out []vsched.Variant
